@@ -251,6 +251,36 @@ func c04Programs(r *run.Run) {
 			c.Nontrivial()
 			c04Check(c, "periodic run", []*cff.Glyph{cff.NewGlyph(".notdef", 0), buildGlyph("A", 321.5, [2]float64{-100, 50}, segs)}, fmt.Sprint(names, " x ", length))
 		})
+
+	r.Explore(explore.Config{Name: "C04.run-tail"},
+		"a run of every length 1..60 of one segment type followed by a single segment of another type (the combined operators rlinecurve / rcurveline and the alternating forms take the tail with them: stack room for the tail), optionally followed by a second run, over 9 representative segment types",
+		func(c *explore.Ctx) {
+			reps := c04RunReps
+			a := reps[c.Choose(len(reps), "run segment")]
+			b := reps[c.Choose(len(reps), "tail segment")]
+			n := 1 + c.Choose(60, "run length")
+			again := c.Choose(3, "second run length") * 11
+			var segs []c04Seg
+			for i := 0; i < n; i++ {
+				segs = append(segs, a)
+			}
+			segs = append(segs, b)
+			for i := 0; i < again; i++ {
+				segs = append(segs, a)
+			}
+			desc := fmt.Sprintf("%s x %d, %s, %s x %d", a.name, n, b.name, a.name, again)
+			c.Sample(func() any { return desc })
+			c.Nontrivial()
+			c04Check(c, "run and tail", []*cff.Glyph{cff.NewGlyph(".notdef", 0), buildGlyph("A", 321, [2]float64{-100, 50}, segs)}, desc)
+		})
+}
+
+// c04RunReps: representative segments with whole-unit steps (shared with C03.cff-runs, where an
+// independent implementation that rounds operands reads the outlines).
+var c04RunReps = []c04Seg{
+	{"line(3,2)", 'L', [6]float64{3, 2}}, {"line(5,0)", 'L', [6]float64{5, 0}}, {"line(0,-4)", 'L', [6]float64{0, -4}},
+	{"curve(general)", 'C', [6]float64{1, 2, 3, -1, 5, 2}}, {"curve(h..v)", 'C', [6]float64{2, 0, 3, 4, 0, 1}}, {"curve(v..h)", 'C', [6]float64{0, 3, 3, 4, 2, 0}},
+	{"curve(h..h)", 'C', [6]float64{1, 0, 3, 4, 2, 0}}, {"curve(v..v)", 'C', [6]float64{0, 1, 3, -2, 0, 2}}, {"line(-2,7)", 'L', [6]float64{-2, 7}},
 }
 
 func c04Stems(r *run.Run) {
